@@ -550,6 +550,7 @@ type Assertion struct {
 	guard    string // for (=> guard fact): the guard constant
 	Block    int    // CFG block being executed when the assertion was made (-1: function-global)
 	Stage    int    // float pipeline stage (cut points) of a FloatDef
+	Tags     []string // property tags of the clause the assumption comes from (nil: always relevant)
 }
 
 type Decl struct {
@@ -646,11 +647,35 @@ func (vc *VC) hasFloatDefs(o *Obligation) bool {
 	return false
 }
 
+// assumeTagged: an assumption that stems from a tagged contract clause; it is only used for obligations sharing a tag
+// (or untagged ones). Leaving an assumption out can only make a proof fail.
+func (vc *VC) assumeTagged(t Term, label string, tags []string) {
+	if t.S == "true" {
+		return
+	}
+	for _, part := range splitGoal(t.S, 0) {
+		vc.asserts = append(vc.asserts, Assertion{S: part, Label: label, Block: vc.curBlock, Tags: tags})
+	}
+}
+
+func disjointTags(a, b []string) bool {
+	for _, x := range a {
+		for _, y := range b {
+			if x == y {
+				return false
+			}
+		}
+	}
+	return true
+}
+
 func (vc *VC) assume(t Term, label string) {
 	if t.S == "true" {
 		return
 	}
-	vc.asserts = append(vc.asserts, Assertion{S: t.S, Label: label, Block: vc.curBlock})
+	for _, part := range splitGoal(t.S, 0) {
+		vc.asserts = append(vc.asserts, Assertion{S: part, Label: label, Block: vc.curBlock})
+	}
 }
 
 func (vc *VC) oblige(o *Obligation) {
@@ -925,6 +950,9 @@ func (vc *VC) relevant(o *Obligation, abstractFloats int) ([]bool, map[string]bo
 			a := &vc.asserts[i]
 			if vc.dropFloat(a, o, abstractFloats) {
 				continue
+			}
+			if len(a.Tags) > 0 && disjointTags(a.Tags, o.Tags) {
+				continue // an "exclusive" fact (tags written with !) is only used for obligations of those properties
 			}
 			if a.defOf != "" {
 				if !used[a.defOf] {
